@@ -6,7 +6,10 @@ BoxesA == { B(NInf, PInf, NInf, PInf), B(RatOf(0), RatOf(2), NInf, PInf), B(RatO
             B(RatOf(0), RatOf(1), RatOf(-2), RatOf(-1)) }
 DefsA == { (0 :> 1) @@ (1 :> 1), (0 :> 2) @@ (1 :> 0) }
 NoDefs == {}
-PoolB == { (0 :> 1) @@ (1 :> 1), (0 :> 2) @@ (1 :> 2), (0 :> -1) @@ (1 :> -1), (0 :> 1) @@ (1 :> 0), (0 :> 0) @@ (1 :> 1) @@ (2 :> 1), (0 :> 1) @@ (1 :> 0) @@ (2 :> -1) }
+\* expressions that share slack variables / assertions or must NOT: the same one, a multiple, the negation, a plain variable,
+\* over a derived variable, and pairs that differ only in the sign of a non-unit coefficient of the second variable
+PoolB == { (0 :> 1) @@ (1 :> 1), (0 :> 2) @@ (1 :> 2), (0 :> -1) @@ (1 :> -1), (0 :> 1) @@ (1 :> 0), (0 :> 0) @@ (1 :> 1) @@ (2 :> 1), (0 :> 1) @@ (1 :> 0) @@ (2 :> -1),
+           (0 :> 1) @@ (1 :> 2), (0 :> 1) @@ (1 :> -2) }
 DefsB == { (0 :> 1) @@ (1 :> 1) }
 CoefsA == {-1, 0, 1, 2}
 CoefsB == {-1, 0, 1}
